@@ -194,8 +194,15 @@ impl DatabaseCheckpoint {
 		fs::create_dir_all(&sstables_dir).map_err(|e| Error::Io(Arc::new(e)))?;
 		fs::create_dir_all(&wal_dir).map_err(|e| Error::Io(Arc::new(e)))?;
 
+		// Steps 4-7b copy one consistent view: the manifest read lock is held from the
+		// first table to the last file, so no flush or compaction can install or remove
+		// tables (and clean up value-log files) in between. Copying the tables and the
+		// manifest under separate locks lets a compaction finish between the two, and
+		// the checkpoint's manifest then names tables the checkpoint does not contain.
+		let levels_guard = self.core.level_manifest.read()?;
+
 		// Step 4: Copy all SSTables
-		let (sstable_count, sstables_size) = self.copy_sstables(&sstables_dir)?;
+		let (sstable_count, sstables_size) = self.copy_sstables(&levels_guard, &sstables_dir)?;
 		#[cfg(surrealkv_verif)]
 		crate::verif::yield_point("checkpoint:tables-copied");
 
@@ -215,6 +222,7 @@ impl DatabaseCheckpoint {
 		// checkpoint without it would not answer them (and restoring such a checkpoint
 		// would leave the index of the discarded timeline in place).
 		let index_size = self.copy_versioned_index(checkpoint_path)?;
+		drop(levels_guard);
 
 		// Step 8: Create checkpoint metadata
 		let timestamp = SystemTime::now().duration_since(UNIX_EPOCH).unwrap().as_secs();
@@ -295,8 +303,11 @@ impl DatabaseCheckpoint {
 	}
 
 	/// Copies all SSTables to the checkpoint directory
-	fn copy_sstables(&self, dest_dir: &Path) -> Result<(usize, u64)> {
-		let levels_guard = self.core.level_manifest.read()?;
+	fn copy_sstables(
+		&self,
+		levels_guard: &crate::levels::LevelManifest,
+		dest_dir: &Path,
+	) -> Result<(usize, u64)> {
 		let mut total_size = 0u64;
 		let mut count = 0usize;
 
